@@ -165,73 +165,46 @@ Proof.
     destruct H as [<-|[]]. right. auto.
 Qed.
 
-(* what the shaped additional section can contain, option-wise:
-   - options of the response's OPT records,
-   - the writer-owned OPT's options,
-   - cookie / NSID generated here,
-   - our keepalive *)
+(* keepRelayable / keepOneOPT *)
+Lemma in_relay l e : In e (keep_relayable l) <-> In e l /\ e_code e = code_ede.
+Proof.
+  unfold keep_relayable. rewrite filter_In. split; intros [H1 H2]; split; auto.
+  - apply N.eqb_eq. exact H2.
+  - apply N.eqb_eq. exact H2.
+Qed.
+Lemma drop_opts_none l : filter is_opt (drop_opts l) = [].
+Proof. apply filter_neg_is_opt. Qed.
+
+(* the writer-owned OPT's options when WriteMsg starts *)
 Definition wcur_opts (w : wstate) (ex : list xrr) : list eopt :=
   match find_req ex with Some o => o_opts o | None => match w_opt w with Some o => o_opts o | None => [] end end.
 
+(* every option of the shaped additional section is
+   - an Extended DNS Error of the response's selected OPT,
+   - an option of the writer-owned OPT (the forwarded ECS copy; stripped unless downstream put more there),
+   - cookie / NSID generated here — none of these with code ECS or keepalive —
+   - or our keepalive.  There is exactly one OPT left, whatever the response carried. *)
 Lemma shape_ex_opts c w ex e :
   In e (ex_opts (shape_ex c w ex)) ->
-  In e (ex_opts ex) \/ In e (wcur_opts w ex) \/ In e (own_opts c w) \/ (w_ka w = true /\ e = keepalive_opt).
+  (((In e (ex_opts ex) /\ e_code e = code_ede) \/ In e (wcur_opts w ex) \/ In e (own_opts c w))
+   /\ e_code e <> code_ecs /\ e_code e <> code_keepalive)
+  \/ (w_ka w = true /\ e = keepalive_opt).
 Proof.
   unfold shape_ex, wcur_opts.
   destruct (split_last_opt ex) as [[[pre [b o]] suf]|] eqn:E.
   - destruct (split_last_opt_some _ _ _ _ _ E) as [Hex Hsuf].
-    assert (Hin : forall l, In e (ex_opts (pre ++ XO (opt_set_opts (opt_set_size (opt_set_do o (w_do w)) (w_resp w)) (finish_opts w l)) :: suf)) ->
-                  In e (ex_opts ex) \/ In e (finish_opts w l)).
-    { intros l H. rewrite ex_opts_app in H. apply in_app_or in H. destruct H as [H|H].
-      - left. rewrite Hex, ex_opts_app. apply in_or_app. left. exact H.
-      - cbn in H. apply in_app_or in H. destruct H as [H|H]; [right; exact H|].
-        left. rewrite Hex, ex_opts_app. apply in_or_app. right.
-        change (ex_opts ((if b then XReq o else XO o) :: suf)) with
-          ((match opt_of (if b then XReq o else XO o) with Some o0 => o_opts o0 | None => [] end) ++ ex_opts suf).
-        apply in_or_app. right. exact H. }
     assert (Ho : forall x, In x (o_opts o) -> In x (ex_opts ex)).
     { intros x Hx. rewrite Hex, ex_opts_app. apply in_or_app. right.
       change (ex_opts ((if b then XReq o else XO o) :: suf)) with
           ((match opt_of (if b then XReq o else XO o) with Some o0 => o_opts o0 | None => [] end) ++ ex_opts suf).
       apply in_or_app. left. destruct b; exact Hx. }
-    destruct b; intros H; apply Hin in H; destruct H as [H|H]; auto;
-      apply in_finish in H; destruct H as [[H _]|H]; auto.
-    + apply in_app_or in H. destruct H as [H|H]; auto.
-    + apply in_app_or in H. destruct H as [H|H]; auto.
-      apply in_app_or in H. destruct H as [H|H]; auto.
-      right. left. destruct (find_req ex); [exact H|]. destruct (w_opt w); [exact H|destruct H].
-  - intros H. rewrite ex_opts_app in H. apply in_app_or in H. destruct H as [H|H]; [auto|].
-    cbn in H. rewrite app_nil_r in H. apply in_finish in H. destruct H as [[H _]|H]; auto.
-    apply in_app_or in H. destruct H as [H|H]; auto.
-    right. left. destruct (find_req ex); [exact H|]. destruct (w_opt w); [exact H|destruct H].
-Qed.
-
-(* with at most one OPT downstream, the shaped section has exactly the
-   finished list, and ECS / foreign keepalive are gone *)
-Lemma shape_ex_opts_one c w ex e :
-  (opt_count ex <= 1)%nat ->
-  In e (ex_opts (shape_ex c w ex)) ->
-  ((In e (ex_opts ex) \/ In e (wcur_opts w ex) \/ In e (own_opts c w))
-   /\ e_code e <> code_ecs /\ e_code e <> code_keepalive)
-  \/ (w_ka w = true /\ e = keepalive_opt).
-Proof.
-  intros Hone. unfold shape_ex, wcur_opts.
-  destruct (split_last_opt ex) as [[[pre [b o]] suf]|] eqn:E.
-  - destruct (split_last_opt_some _ _ _ _ _ E) as [Hex Hsuf].
-    assert (Hpre : filter is_opt pre = []).
-    { rewrite Hex in Hone. eapply one_opt_pre; [|exact Hone]. destruct b; reflexivity. }
-    assert (Ho : forall x, In x (o_opts o) -> In x (ex_opts ex)).
-    { intros x Hx. rewrite Hex, ex_opts_app. apply in_or_app. right.
-      change (ex_opts ((if b then XReq o else XO o) :: suf)) with
-          ((match opt_of (if b then XReq o else XO o) with Some o0 => o_opts o0 | None => [] end) ++ ex_opts suf).
-      apply in_or_app. left. destruct b; exact Hx. }
-    assert (Hred : forall l, In e (ex_opts (pre ++ XO (opt_set_opts (opt_set_size (opt_set_do o (w_do w)) (w_resp w)) (finish_opts w l)) :: suf)) ->
+    assert (Hred : forall l, In e (ex_opts (drop_opts pre ++ XO (opt_set_opts (opt_set_size (opt_set_do o (w_do w)) (w_resp w)) (finish_opts w l)) :: suf)) ->
                    In e (finish_opts w l)).
-    { intros l H. rewrite ex_opts_app, (no_opt_ex_opts _ Hpre), ex_opts_cons in H.
+    { intros l H. rewrite ex_opts_app, (no_opt_ex_opts _ (drop_opts_none pre)), ex_opts_cons in H.
       rewrite (no_opt_ex_opts _ Hsuf), app_nil_r in H. exact H. }
     destruct b; intros H; apply Hred in H; apply in_finish in H; destruct H as [[H Hc]|H]; auto; left; split; auto.
-    + apply in_app_or in H. destruct H as [H|H]; auto.
-    + apply in_app_or in H. destruct H as [H|H]; auto.
+    + apply in_app_or in H. destruct H as [H|H]; auto. apply in_relay in H. destruct H. auto.
+    + apply in_app_or in H. destruct H as [H|H]; [apply in_relay in H; destruct H; auto|].
       apply in_app_or in H. destruct H as [H|H]; auto.
       right. left. destruct (find_req ex); [exact H|]. destruct (w_opt w); [exact H|destruct H].
   - intros H. pose proof (split_last_opt_none _ E) as Hn.
@@ -544,11 +517,20 @@ Proof.
   - inversion H; subst. apply in_or_app. left. exact Hi.
 Qed.
 
+(* downstream may have appended options to the REQUEST's own OPT object and then sent another OPT
+   after it: those options are merged unfiltered.  The premise says they are of the relayable kind
+   (ECS / keepalive, stripped; EDE) — vacuous unless a response carries the request's OPT and a later OPT *)
+Definition relayable (e : eopt) : Prop :=
+  e_code e = code_ecs \/ e_code e = code_keepalive \/ e_code e = code_ede.
+Definition req_opt_clean (d : msg) : Prop :=
+  forall o, find_req (m_ex d) = Some o -> forall e, In e (o_opts o) -> relayable e.
+
 (* where an option of a shaped reply can come from *)
 Lemma shaped_option_origin tr c q strict d clen e :
   cfg_wf c -> client_ver q = 0 ->
   In e (all_opts (shape_reply tr c (mk_wstate tr strict q (set_edns0 c q)) d clen)) ->
-  In e (all_opts d) \/ e_code e = code_ecs
+  (In e (all_opts d) /\ e_code e = code_ede)
+  \/ (exists o, find_req (m_ex d) = Some o /\ In e (o_opts o) /\ e_code e <> code_ecs /\ e_code e <> code_keepalive)
   \/ (client_cookie_ok (client_opts (client_opt q)) = true /\ e = cookie_opt c)
   \/ (has_code code_nsid (client_opts (client_opt q)) = true /\ c_nsid c = Some e)
   \/ (is_tcp tr = true /\ has_code code_keepalive (client_opts (client_opt q)) = true /\ e = keepalive_opt).
@@ -559,40 +541,14 @@ Proof.
   2:{ rewrite (no_opt_ex_opts _ (filter_neg_is_opt _)) in H. destruct H. }
   assert (Hvo : o_ver o = 0) by (unfold client_ver in Hv; rewrite E in Hv; exact Hv).
   apply shape_ex_opts in H. rewrite (set_edns0_opt c q o E Hvo) in H.
-  destruct H as [H|[H|[H|H]]].
+  destruct H as [[[H|[H|H]] [Hc1 Hc2]]|H].
   - left. exact H.
   - unfold wcur_opts in H. destruct (find_req (m_ex d)) as [ro|] eqn:F.
-    + left. eapply find_req_in; eauto.
-    + cbn in H. destruct strict; [destruct H|]. right. left. eapply fwd_opts_code; eauto.
-  - apply in_own_opts in H. cbn in H. destruct H as [[H1 H2]|[H1 H2]]; cbn; auto 6.
-  - cbn in H. destruct H as [H1 H2]. apply andb_true_iff in H1. destruct H1. cbn. auto 8.
-Qed.
-
-Lemma shaped_option_origin_one tr c q strict d clen e :
-  cfg_wf c -> client_ver q = 0 -> one_opt d ->
-  In e (all_opts (shape_reply tr c (mk_wstate tr strict q (set_edns0 c q)) d clen)) ->
-  (In e (all_opts d) /\ e_code e <> code_ecs /\ e_code e <> code_keepalive)
-  \/ (client_cookie_ok (client_opts (client_opt q)) = true /\ e = cookie_opt c)
-  \/ (has_code code_nsid (client_opts (client_opt q)) = true /\ c_nsid c = Some e)
-  \/ (is_tcp tr = true /\ has_code code_keepalive (client_opts (client_opt q)) = true /\ e = keepalive_opt).
-Proof.
-  intros Hw Hv Hone H. apply shape_reply_opts_incl in H. rewrite shape_pre_ex in H.
-  rewrite wstate_noedns in H by exact Hv.
-  destruct (client_opt q) as [o|] eqn:E.
-  2:{ rewrite (no_opt_ex_opts _ (filter_neg_is_opt _)) in H. destruct H. }
-  assert (Hvo : o_ver o = 0) by (unfold client_ver in Hv; rewrite E in Hv; exact Hv).
-  apply shape_ex_opts_one in H; [|exact Hone]. rewrite (set_edns0_opt c q o E Hvo) in H.
-  destruct H as [[[H|[H|H]] [Hc1 Hc2]]|H].
-  - left. auto.
-  - unfold wcur_opts in H. destruct (find_req (m_ex d)) as [ro|] eqn:F.
-    + left. split; auto. eapply find_req_in; eauto.
+    + right. left. exists ro. auto.
     + cbn in H. destruct strict; [destruct H|]. exfalso. apply Hc1. eapply fwd_opts_code; eauto.
-  - apply in_own_opts in H. cbn in H. destruct H as [[H1 H2]|[H1 H2]]; cbn; auto 6.
-  - cbn in H. destruct H as [H1 H2]. apply andb_true_iff in H1. destruct H1. cbn. auto 8.
+  - apply in_own_opts in H. cbn in H. destruct H as [[Hx1 Hx2]|[Hx1 Hx2]]; cbn; auto 6.
+  - cbn in H. destruct H as [Hx1 Hx2]. apply andb_true_iff in Hx1. destruct Hx1. cbn. auto 8.
 Qed.
-
-Definition relayable (e : eopt) : Prop :=
-  e_code e = code_ecs \/ e_code e = code_keepalive \/ e_code e = code_ede.
 
 Lemma own_cookie_ok tr c qo : client_cookie_ok (client_opts qo) = true -> own_option_ok tr c qo (cookie_opt c) = true.
 Proof.
@@ -607,17 +563,23 @@ Qed.
 Lemma own_ka_ok tr c qo :
   is_tcp tr = true -> has_code code_keepalive (client_opts qo) = true -> own_option_ok tr c qo keepalive_opt = true.
 Proof. intros H1 H2. unfold own_option_ok. cbn. rewrite H1, H2. reflexivity. Qed.
+Lemma own_ede_ok tr c qo e : e_code e = code_ede -> own_option_ok tr c qo e = true.
+Proof. intros E. unfold own_option_ok. rewrite E. reflexivity. Qed.
 
-Lemma no_ecs_ka_partial_l tr c q strict dn clen r :
-  serve_msg tr c q strict dn clen = Some r -> cfg_wf c -> client_ver q = 0 ->
-  (forall d, dn = Some d -> one_opt d) ->
+Lemma badvers_no_opts q f : all_opts (badvers_reply q f) = [].
+Proof. reflexivity. Qed.
+
+(* FULL: for every query and every downstream response *)
+Lemma no_ecs_ka_l tr c q strict dn clen r :
+  serve_msg tr c q strict dn clen = Some r -> cfg_wf c ->
   no_ecs_ka tr c (client_opt q) r = true.
 Proof.
-  intros H Hw Hv Hone. unfold no_ecs_ka. apply forallb_forall. intros e He.
-  destruct (serve_msg_route _ _ _ _ _ _ _ H) as [? ->|? ? ->|? ? Hv' ->|d ? ? _ Hdn ->];
-    rewrite tw_all_opts in He; try (destruct He; fail); [contradiction|].
-  apply shaped_option_origin_one in He; auto.
-  destruct He as [(Hi & Hx1 & Hx2)|[(Hx1 & ->)|[(Hx1 & Hx2)|(Hx1 & Hx2 & ->)]]].
+  intros H Hw. unfold no_ecs_ka. apply forallb_forall. intros e He.
+  destruct (serve_msg_route _ _ _ _ _ _ _ H) as [? ->|? ? ->|? ? Hv' ->|d ? ? Hv Hdn ->];
+    rewrite tw_all_opts in He; try (destruct He; fail).
+  apply shaped_option_origin in He; auto.
+  destruct He as [(Hi & Hx)|[(ro & _ & _ & Hx1 & Hx2)|[(Hx1 & ->)|[(Hx1 & Hx2)|(Hx1 & Hx2 & ->)]]]].
+  - rewrite Hx. reflexivity.
   - apply N.eqb_neq in Hx1, Hx2. rewrite Hx1, Hx2. reflexivity.
   - reflexivity.
   - destruct Hw as [_ Hn]. rewrite (Hn e Hx2). reflexivity.
@@ -626,58 +588,39 @@ Proof.
     apply own_ka_ok; auto.
 Qed.
 
-Lemma options_own_partial_l tr c q strict dn clen r :
-  serve_msg tr c q strict dn clen = Some r -> cfg_wf c -> client_ver q = 0 ->
-  (forall d, dn = Some d -> one_opt d /\ forall e, In e (all_opts d) -> relayable e) ->
+Lemma options_own_l tr c q strict dn clen r :
+  serve_msg tr c q strict dn clen = Some r -> cfg_wf c ->
+  (forall d, dn = Some d -> req_opt_clean d) ->
   options_own tr c (client_opt q) r = true.
 Proof.
-  intros H Hw Hv Hd. unfold options_own. apply forallb_forall. intros e He.
-  destruct (serve_msg_route _ _ _ _ _ _ _ H) as [? ->|? ? ->|? ? Hv' ->|d ? ? _ Hdn ->];
-    rewrite tw_all_opts in He; try (destruct He; fail); [contradiction|].
-  destruct (Hd d Hdn) as [Hone Hrel].
-  apply shaped_option_origin_one in He; auto.
-  destruct He as [(Hi & Hx1 & Hx2)|[(Hx1 & ->)|[(Hx1 & Hx2)|(Hx1 & Hx2 & ->)]]].
-  - destruct (Hrel e Hi) as [E|[E|E]]; try contradiction. unfold own_option_ok. rewrite E. reflexivity.
+  intros H Hw Hd. unfold options_own. apply forallb_forall. intros e He.
+  destruct (serve_msg_route _ _ _ _ _ _ _ H) as [? ->|? ? ->|? ? Hv' ->|d ? ? Hv Hdn ->];
+    rewrite tw_all_opts in He; try (destruct He; fail).
+  apply shaped_option_origin in He; auto.
+  destruct He as [(Hi & Hx)|[(ro & Hf & Hi & Hx1 & Hx2)|[(Hx1 & ->)|[(Hx1 & Hx2)|(Hx1 & Hx2 & ->)]]]].
+  - apply own_ede_ok. exact Hx.
+  - destruct (Hd d Hdn ro Hf e Hi) as [E|[E|E]]; try contradiction. apply own_ede_ok. exact E.
   - apply own_cookie_ok. exact Hx1.
   - eapply own_nsid_ok; eauto.
   - apply own_ka_ok; auto.
 Qed.
 
-Lemma replace_last_opt_opts ex o e :
-  In e (ex_opts (map norm_x (replace_last_opt ex o))) -> In e (ex_opts ex) \/ In e (o_opts o).
-Proof.
-  rewrite ex_opts_norm. unfold replace_last_opt.
-  destruct (split_last_opt ex) as [[[pre [b o0]] suf]|] eqn:E; [|auto].
-  destruct (split_last_opt_some _ _ _ _ _ E) as [-> _].
-  rewrite !ex_opts_app, !ex_opts_cons. cbn. intros H.
-  apply in_app_or in H. destruct H as [H|H].
-  - left. apply in_or_app. auto.
-  - apply in_app_or in H. destruct H as [H|H]; [right; exact H|].
-    left. apply in_or_app. right. apply in_or_app. right. exact H.
-Qed.
-
 Lemma cookie_only_l tr c q strict dn clen r e :
   serve_msg tr c q strict dn clen = Some r -> cfg_wf c ->
+  (forall d, dn = Some d -> req_opt_clean d) ->
   In e (all_opts r) -> e_code e = code_cookie ->
-  (exists d, dn = Some d /\ In e (all_opts d))
-  \/ In e (all_opts q)
-  \/ (client_cookie_ok (client_opts (client_opt q)) = true /\ e = cookie_opt c).
+  client_cookie_ok (client_opts (client_opt q)) = true /\ e = cookie_opt c.
 Proof.
-  intros H Hw He Hc.
+  intros H Hw Hd He Hc.
   destruct (serve_msg_route _ _ _ _ _ _ _ H) as [? ->|? ? ->|? ? Hv' ->|d ? ? Hv Hdn ->];
     rewrite tw_all_opts in He; try (destruct He; fail).
-  - (* BADVERS: the request's own additional section comes back *)
-    unfold badvers_reply in He. rewrite all_opts_ex in He. cbn [m_ex] in He.
-    apply replace_last_opt_opts in He. destruct He as [He|He]; [auto|]. cbn in He.
-    exfalso. unfold set_edns0 in He. destruct (last_opt (m_ex q)) as [o|]; cbn in He; [|destruct He].
-    destruct (o_ver o =? 0); cbn in He; apply (fwd_opts_code c _ e Hw) in He; rewrite He in Hc; discriminate.
-  - apply shaped_option_origin in He; auto.
-    destruct He as [Hi|[E|[Hx1|[(Hx1 & Hx2)|(Hx1 & Hx2 & ->)]]]].
-    + left. eauto.
-    + rewrite E in Hc. discriminate.
-    + auto.
-    + destruct Hw as [_ Hn]. rewrite (Hn e Hx2) in Hc. discriminate.
-    + discriminate.
+  apply shaped_option_origin in He; auto.
+  destruct He as [(Hi & Hx)|[(ro & Hf & Hi & Hx1 & Hx2)|[Hx|[(Hx1 & Hx2)|(Hx1 & Hx2 & ->)]]]].
+  - rewrite Hx in Hc. discriminate.
+  - destruct (Hd d Hdn ro Hf e Hi) as [E|[E|E]]; rewrite E in Hc; discriminate.
+  - exact Hx.
+  - destruct Hw as [_ Hn]. rewrite (Hn e Hx2) in Hc. discriminate.
+  - discriminate.
 Qed.
 
 (* ------------------------------------------------------------------ *)
@@ -688,26 +631,52 @@ Proof.
   unfold tc_minimal, norm, truncate, with_ex. cbn. rewrite forallb_is_opt_norm. apply keep_opt_only_all_opt.
 Qed.
 
-Lemma udp_size_bound_l c q strict d clen r :
-  serve_msg UDP c q strict (Some d) clen = Some r ->
-  length (m_q q) = 1%nat -> h_opcode (m_hdr q) = 0 -> client_ver q = 0 ->
-  clen <= msg_ulen (shape_pre c (mk_wstate UDP strict q (set_edns0 c q)) d) ->
-  tc_minimal r = true
-  \/ (r = norm (shape_pre c (mk_wstate UDP strict q (set_edns0 c q)) d) /\ clen <= udp_limit (client_opt q)).
+(* a question on the wire: a name of at most 255 octets, type, class *)
+Definition quest_small (q : msg) : Prop := forall x, In x (m_q q) -> q_len x <= 259.
+
+Lemma sumN_firstn1 (l : list quest) : (forall x, In x l -> q_len x <= 259) -> sumN q_len (firstn 1 l) <= 259.
 Proof.
-  intros H Hl Ho Hv Hc.
-  destruct (serve_msg_route _ _ _ _ _ _ _ H) as [? ->|? ? ->|? ? Hv' ->|d' ? ? _ Hdn ->]; try contradiction.
-  inversion Hdn; subst d'. cbn [transport_write].
-  rewrite shape_reply_unfold. unfold truncated. cbn [is_udp andb].
-  set (w := mk_wstate UDP strict q (set_edns0 c q)) in *.
-  destruct (udp_overflow (shape_pre c w d) clen (w_size w)) eqn:EO.
-  - left. apply tc_minimal_truncate.
-  - right. split; [reflexivity|]. unfold udp_overflow in EO.
-    assert (Hs : w_size w = udp_limit (client_opt q)) by (apply wstate_size; exact Hv).
-    rewrite Hs in EO.
-    destruct (msg_ulen (shape_pre c w d) <=? udp_limit (client_opt q)) eqn:E1.
-    + apply N.leb_le in E1. lia.
-    + apply N.ltb_ge in EO. exact EO.
+  destruct l as [|x l]; cbn; [lia|]. intros H. specialize (H x (or_introl eq_refl)). lia.
+Qed.
+
+Lemma udp_limit_ge qo : 512 <= udp_limit qo.
+Proof. unfold udp_limit, min_msg_size. destruct qo; lia. Qed.
+
+Lemma ulen_set_rcode q rc : msg_ulen (set_rcode q rc) = header_len + sumN q_len (firstn 1 (m_q q)) + 0 + 0 + 0.
+Proof. reflexivity. Qed.
+Lemma ulen_badvers q f :
+  msg_ulen (badvers_reply q f) = header_len + sumN q_len (firstn 1 (m_q q)) + 0 + 0 + (opt_fixed_len + 0 + 0).
+Proof. reflexivity. Qed.
+
+(* FULL: every reply over UDP — shaped, BADVERS, NOTIMP, FORMERR — for every compressed length
+   the library may report for the shaped message (compression only shortens) *)
+Lemma udp_size_bound_l c q strict dn clen r :
+  serve_msg UDP c q strict dn clen = Some r ->
+  quest_small q ->
+  (forall d, dn = Some d -> clen <= msg_ulen (shape_pre c (mk_wstate UDP strict q (set_edns0 c q)) d)) ->
+  tc_minimal r = true
+  \/ msg_ulen r <= udp_limit (client_opt q)
+  \/ (exists d, dn = Some d /\ r = norm (shape_pre c (mk_wstate UDP strict q (set_edns0 c q)) d)
+                 /\ clen <= udp_limit (client_opt q)).
+Proof.
+  intros H Hq Hc. pose proof (udp_limit_ge (client_opt q)) as Hl.
+  destruct (serve_msg_route _ _ _ _ _ _ _ H) as [? ->|? ? ->|? ? Hv' ->|d ? ? Hv Hdn ->]; cbn [transport_write].
+  - right. left. rewrite ulen_set_rcode.
+    pose proof (sumN_firstn1 (m_q q) Hq). unfold header_len. lia.
+  - right. left. change (msg_ulen (not_supported q)) with header_len. unfold header_len. lia.
+  - right. left. rewrite ulen_badvers.
+    pose proof (sumN_firstn1 (m_q q) Hq). unfold header_len, opt_fixed_len. lia.
+  - specialize (Hc d Hdn).
+    rewrite shape_reply_unfold. unfold truncated. cbn [is_udp andb].
+    set (w := mk_wstate UDP strict q (set_edns0 c q)) in *.
+    destruct (udp_overflow (shape_pre c w d) clen (w_size w)) eqn:EO.
+    + left. apply tc_minimal_truncate.
+    + right. right. exists d. split; [exact Hdn|]. split; [reflexivity|]. unfold udp_overflow in EO.
+      assert (Hs : w_size w = udp_limit (client_opt q)) by (apply wstate_size; exact Hv).
+      rewrite Hs in EO.
+      destruct (msg_ulen (shape_pre c w d) <=? udp_limit (client_opt q)) eqn:E1.
+      * apply N.leb_le in E1. lia.
+      * apply N.ltb_ge in EO. exact EO.
 Qed.
 
 Lemma reject_small h rc : msg_ulen (reject_in_place h rc) = header_len.
@@ -868,39 +837,25 @@ Definition wit_qv : msg :=
   mk_msg (mk_hdr 9 false 0 false false true false false false false 0) [mk_quest 0 1 1 17] [] []
          [XR (mk_rr 0 1 16 1 60 600); XO (mk_opt 1 512 false 0 [mk_eopt 8 8 312264627564736])].
 
-Lemma no_foreign_option_reflected_refuted_l :
-  exists tr c q d clen r,
-    serve_msg tr c q false (Some d) clen = Some r /\ cfg_wf c /\ dn_echo q d /\ one_opt d /\ client_ver q = 0
-    /\ options_own tr c (client_opt q) r = false.
-Proof.
-  exists TCP, wit_c, wit_q, wit_d, 0. eexists. split; [vm_compute; reflexivity|].
-  split; [exact wit_c_wf|]. split; [repeat split|]. split; [unfold one_opt; cbn; lia|]. split; reflexivity.
-Qed.
-
-Lemma no_ecs_reflected_second_opt_refuted_l :
-  exists tr c q d clen r,
-    serve_msg tr c q false (Some d) clen = Some r /\ cfg_wf c /\ dn_echo q d /\ client_ver q = 0
-    /\ no_ecs_ka tr c (client_opt q) r = false.
-Proof.
-  exists TCP, wit_c, wit_q, wit_d2, 0. eexists. split; [vm_compute; reflexivity|].
-  split; [exact wit_c_wf|]. split; [repeat split|]. split; reflexivity.
-Qed.
-
-Lemma no_ecs_reflected_badvers_refuted_l :
-  exists tr c q r,
-    serve_msg tr c q false None 0 = Some r /\ cfg_wf c /\ no_ecs_ka tr c (client_opt q) r = false.
-Proof.
-  exists TCP, wit_c_ecs, wit_qv. eexists. split; [vm_compute; reflexivity|]. split; [exact wit_c_ecs_wf|reflexivity].
-Qed.
-
-(* the BADVERS reply is packed without compression: its wire length IS msg_ulen *)
-Lemma udp_size_bound_badvers_refuted_l :
-  exists c q r,
-    serve_msg UDP c q false None 0 = Some r /\ h_rcode (m_hdr r) = rcode_badvers
-    /\ udp_limit (client_opt q) < msg_ulen r /\ tc_minimal r = false.
-Proof.
-  exists wit_c, wit_qv. eexists. split; [vm_compute; reflexivity|]. split; [reflexivity|]. split; [vm_compute; reflexivity|reflexivity].
-Qed.
+(* The four inputs that refuted the full statements before fix fb9758c, on the repaired code: *)
+(* F5: the upstream's COOKIE / NSID / PADDING stop at the edns layer *)
+Example ex_foreign_dropped :
+  serve_msg TCP wit_c wit_q false (Some wit_d) 0
+  = Some (mk_msg (mk_hdr 7 true 0 false false true true false false false 0) [mk_quest 0 1 1 17] [mk_rr 0 0 1 1 300 27] []
+                 [XO (mk_opt 0 1232 false 0 [])]).
+Proof. vm_compute. reflexivity. Qed.
+(* a second OPT (with ECS and an upstream keepalive) does not survive *)
+Example ex_second_opt_dropped :
+  serve_msg TCP wit_c wit_q false (Some wit_d2) 0
+  = Some (mk_msg (mk_hdr 7 true 0 false false true true false false false 0) [mk_quest 0 1 1 17] [mk_rr 0 0 1 1 300 27] []
+                 [XO (mk_opt 0 1232 false 0 [])]).
+Proof. vm_compute. reflexivity. Qed.
+(* BADVERS: a bare OPT, whatever the query carried (forwardable ECS, a 600-byte record) *)
+Example ex_badvers_bare :
+  serve_msg UDP wit_c_ecs wit_qv false None 0
+  = Some (mk_msg (mk_hdr 9 true 0 false false true true false false false 16) [mk_quest 0 1 1 17] [] []
+                 [XO (mk_opt 0 1232 false 0 [])]).
+Proof. vm_compute. reflexivity. Qed.
 
 (* ------------------------------------------------------------------ *)
 (* Examples: the hypotheses of the theorems are met by ordinary traffic *)
